@@ -290,7 +290,7 @@ def build_path(ctx: Ctx, cases: list, world: str) -> None:
     pairs = [gen.dup_pair_case(rng) for _ in range(ctx.pick(14, 200))]
     # the three seeded shapes, every run: explicit bases with sources outside MYPYPATH, a sub-package marked only by
     # __init__.pyi without namespace packages, a .py/.pyi pair listed individually with the .py first
-    fixed = [
+    fixed = [] if os.environ.get("C18_NO_FIXED") else [
         Case(entries=[("src/lib/__init__.py", "f"), ("src/lib/core.py", "f"), ("tools/gen/util.py", "f"),
                       ("tools/gen/run.py", "f")], args=["src", "tools"], cwd="", mypy_path=["src"], ns=True, epb=True,
              kind="fixed:outside-mypypath"),
@@ -473,6 +473,9 @@ def directed_search(ctx: Ctx, consts: dict) -> None:
 
 
 # ------------------------------------------------------------------------------------------- witnesses
+DEFERRED: list = []      # broken ties without a failing input of their own (reported if the search finds none)
+
+
 def witnesses(ctx: Ctx, world: str) -> None:
     """The witnesses of the `not_…` theorems must fail on the real code exactly as stated, in the stated cell."""
     lines = [layout.encode(c, world) for _, _, c in WITNESSES]
@@ -488,13 +491,13 @@ def witnesses(ctx: Ctx, world: str) -> None:
         rp = layout.parse(real)
         fails = oracle.roundtrip_failures(case, world, rp)
         if real != strip_model_only(mline):
-            ctx.violation("witness %s: model and real code disagree" % name,
-                          {"broken": "correspondence on the witness of " + name, **replay_detail(case, real, mline, world)},
-                          found_input=False)
+            # reported at the end when the search has not produced a concrete failing input
+            DEFERRED.append(("witness %s: model and real code disagree" % name,
+                             {"broken": "correspondence on the witness of " + name, **replay_detail(case, real, mline, world)}))
         elif not fails or not any(cell in cells for _, _, cells in fails):
-            ctx.violation("witness %s no longer fails on the real code in cell '%s' (the negated theorem is about a "
-                          "model that no longer matches)" % (name, cell),
-                          {"broken": "Props/C18 " + name, **replay_detail(case, real, mline, world)}, found_input=False)
+            DEFERRED.append(("witness %s no longer fails on the real code in cell '%s' (the negated theorem is about a "
+                             "model that no longer matches)" % (name, cell),
+                             {"broken": "Props/C18 " + name, **replay_detail(case, real, mline, world)}))
         else:
             ctx.count("witnesses_replayed")
             if cell in ("bare-dir-beside-module", "init-in-explicit-base"):
@@ -540,6 +543,9 @@ def main(ctx: Ctx) -> None:
     three_way(ctx)
     if not proved:
         directed_search(ctx, consts)
+    if DEFERRED and not ctx.violations:
+        for what, detail in DEFERRED[:3]:
+            ctx.violation(what, detail, found_input=False)
     ctx.coverage["phase_s"] = {"prove": round(t0 - ctx.t0, 1), "witnesses+gen": round(t1 - t0, 1),
                                "correspondence": round(t2 - t1, 1), "build_path": round(t3 - t2, 1),
                                "cli_three_way": round(time.time() - t3, 1)}
